@@ -14,6 +14,7 @@ CONSTANTS
     ReaderDone = FALSE
     AlertCloseOnErr = TRUE
     UdfStopAborts = FALSE
+    ForkHoldsRLock = TRUE
     NWaiters = 0
     WaitHoldsMu = TRUE
     HookNeedsTmLock = FALSE
